@@ -108,6 +108,97 @@ def parse (raw : Bytes) : Except Err (Frame × Bytes) :=
     | .error e => .error e
     | .ok (len, rest) => finish c0.toNat ((b1 &&& 128) != 0) len rest
 
+/-! ## A reused `WebsocketFrame` instance
+
+`WebsocketFrame` is a mutable object: `parse` overwrites its fields (the mask
+only when the frame is masked), remembers the DECLARED payload length in
+`payload_length`, `build` uses a remembered `payload_length` instead of
+`len(data)`, and `reset()` restores the constructor's values.  The web
+server's websocket loop (`HttpWebServerPlugin.on_client_data`) reuses one
+instance for all frames of a segment with `reset()` in between.  `Inst` is that
+object; `parseSt` / `buildSt` / `Inst.reset` are its methods (success paths: an
+exception ends the modelled history, as it ends the loop in `web.py`). -/
+structure Inst where
+  fin : Bool
+  rsv1 : Bool
+  rsv2 : Bool
+  rsv3 : Bool
+  opcode : Nat
+  masked : Bool
+  plen : Option Nat
+  mask : Option Bytes
+  data : Option Bytes
+  deriving DecidableEq, Repr
+
+/-- `WebsocketFrame()` -/
+def Inst.fresh : Inst := ⟨false, false, false, false, 0, false, none, none, none⟩
+
+/-- `reset()` -/
+def Inst.reset (_ : Inst) : Inst := Inst.fresh
+
+/-- the payload length the header declares (`self.payload_length` after `parse`) -/
+def declLen (raw : Bytes) : Nat :=
+  match raw with
+  | _ :: c1 :: rest =>
+    match lenRest (c1.toNat &&& 127) rest with
+    | .ok (len, _) => len
+    | .error _ => 0
+  | _ => 0
+
+/-- `parse(raw)` on an instance in state `s`: every field is overwritten except
+    `mask`, which keeps its old value when the new frame is not masked. -/
+def parseSt (s : Inst) (raw : Bytes) : Except Err (Inst × Bytes) :=
+  match parse raw with
+  | .error e => .error e
+  | .ok (f, tail) =>
+    .ok ({ fin := f.fin, rsv1 := f.rsv1, rsv2 := f.rsv2, rsv3 := f.rsv3, opcode := f.opcode,
+           masked := f.masked, plen := some (declLen raw),
+           mask := if f.masked then f.mask else s.mask, data := some f.data }, tail)
+
+/-- the fields `build` reads, as a `Frame` (`data` of `None` counts as empty) -/
+def Inst.toFrame (s : Inst) : Frame :=
+  ⟨s.fin, s.rsv1, s.rsv2, s.rsv3, s.opcode, s.masked, s.mask, s.data.getD []⟩
+
+/-- `build()` with the length field given (`payload_length` already set) -/
+def buildWith (rnd : Bytes) (f : Frame) (len : Nat) : Except Err Bytes :=
+  if byte0 f > 255 then .error .structError
+  else match lenHdr f.masked len with
+    | .error e => .error e
+    | .ok hdr =>
+      match bodyOut rnd f with
+      | .error e => .error e
+      | .ok body => .ok (UInt8.ofNat (byte0 f) :: hdr ++ body)
+
+/-- `build()` on an instance: a remembered `payload_length` wins over `len(data)`
+    and is remembered from then on. -/
+def buildSt (rnd : Bytes) (s : Inst) : Except Err (Inst × Bytes) :=
+  let len := s.plen.getD (s.data.getD []).length
+  match buildWith rnd s.toFrame len with
+  | .error e => .error e
+  | .ok raw => .ok ({ s with plen := some len }, raw)
+
+inductive LoopEnd | drained | closed | failed (e : Err) | fuel
+  deriving DecidableEq, Repr
+
+/-- The websocket loop of `HttpWebServerPlugin.on_client_data`: one instance,
+    `parse` – hand the instance to the route plugin (or stop at a close frame) –
+    `reset()` – until nothing remains.  Returns what the plugin was handed. -/
+def webLoop : Nat → Inst → Bytes → List Inst × LoopEnd
+  | 0, _, raw => ([], if raw.isEmpty then .drained else .fuel)
+  | n + 1, s, raw =>
+    if raw.isEmpty then ([], .drained)
+    else match parseSt s raw with
+      | .error e => ([], .failed e)
+      | .ok (i, rest) =>
+        if i.opcode == 8 then ([], .closed)
+        else
+          let r := webLoop n i.reset rest
+          (i :: r.1, r.2)
+
+/-- the loop as `on_client_data` starts it: a new instance, fuel = input length
+    (proved never to run out: `C16_loop_total`) -/
+def webLoopTop (raw : Bytes) : List Inst × LoopEnd := webLoop raw.length Inst.fresh raw
+
 /-! An independent encoder written from the RFC 6455 §5.2 frame diagram
     (arithmetic, most significant field first), used as the specification
     in `C16_rfc`. -/
